@@ -244,6 +244,19 @@ pub enum SelCase {
     History(KCase),
     /// history with steering, time and real measurements (intervals not reconstructed)
     Dynamic(KCase),
+    /// a real association (source world): the leap / synchronisation status a source hands to the algorithm is
+    /// the one its answers report on the wire (NTPv3/4 LI, NTPv5 LI + synchronised flag)
+    Wire(crate::w_source::SourceCase),
+}
+
+/// the wire clause shared by C03 and C04 (the judge is the source world's; only its leap clause counts here)
+fn check_wire_leap(sc: &crate::w_source::SourceCase) -> Outcome {
+    let o = super::source::check_source(sc, super::source::Which::C08);
+    if o.failure.as_ref().is_some_and(|f| f.signature == "measurement-leap-differs-from-wire") {
+        return Outcome { failure: o.failure, labels: vec!["wire"], nontrivial: true };
+    }
+    let measured = o.labels.iter().any(|l| *l == "delivery-accepted");
+    Outcome::pass(measured).label("wire")
 }
 
 fn to_snap(i: usize, s: &SnapSpec, sync: &SyncSpec) -> kh::Snap {
@@ -301,6 +314,7 @@ fn sel_strategy(histories: BoxedStrategy<KCase>, dynamic: bool) -> BoxedStrategy
             .prop_map(|(min_agree, algo, snaps, reverse)| SelCase::Direct { min_agree, algo, snaps, reverse }),
         2 => histories.prop_map(SelCase::History),
         if dynamic { 2 } else { 0 } => kcase_strategy(false, false, true, true, true, 40).prop_map(SelCase::Dynamic),
+        1 => crate::w_source::case_strategy(14).prop_map(SelCase::Wire),
     ]
     .boxed()
 }
@@ -371,6 +385,7 @@ impl Property for C03 {
     fn check(case: &SelCase) -> Outcome {
         let mut labels = Labels::default();
         match case {
+            SelCase::Wire(sc) => check_wire_leap(sc),
             SelCase::Direct { min_agree, algo, snaps, reverse } => {
                 let sync = SyncSpec { min_agree: *min_agree, startup_fwd: None, startup_bwd: None, single_fwd: None, single_bwd: None, accumulated: None };
                 let mut ks: Vec<kh::Snap> = snaps.iter().enumerate().map(|(i, s)| to_snap(i, s, &sync)).collect();
@@ -549,6 +564,7 @@ impl Property for C04 {
     fn check(case: &SelCase) -> Outcome {
         let mut labels = Labels::default();
         match case {
+            SelCase::Wire(sc) => check_wire_leap(sc),
             SelCase::Direct { algo, snaps, .. } => {
                 let sync = SyncSpec { min_agree: 1, startup_fwd: None, startup_bwd: None, single_fwd: None, single_bwd: None, accumulated: None };
                 let ks: Vec<kh::Snap> = snaps.iter().enumerate().map(|(i, s)| { let mut k = to_snap(i, s, &sync); if k.leap == ntp_proto::NtpLeapIndicator::Unsynchronized { k.leap = ntp_proto::NtpLeapIndicator::Unknown; } k }).collect();
